@@ -102,7 +102,7 @@ def summarize(rep: Report, jobs, results, prop, level, rule, extra_cov=None, fea
         "distinct_nontrivial": nontrivial,
         "rule": rule,
         "states": agg["s_steps"],
-        "transitions": agg["s_forks"],
+        "transitions": agg["s_forks"] + agg["obligations"],     # solver-decided forks + solver-decided path-pair comparisons
         "traces_validated_against_impl": agg["replayed"],
         "obligations": agg["obligations"],
         "discharged": agg["discharged"],
